@@ -55,3 +55,39 @@ var Props = map[string]PropSpec{
 		Rule:        "one evaluation = one history applied to two multistores, height cache on and off; reads (present/absent keys, Has, forward and reverse ranges) at heights the cache serves are compared between the two, nil distinguished from empty; distinct case = (lag, keys, ranges)",
 		Assumptions: storeAssume, RealStub: storeRealStub},
 }
+
+var chainRealStub = map[string]string{
+	"app, baseapp, x/* keepers+handlers+ante, codec, crypto, store/*":      "real",
+	"types.TransactionIndexer, Tendermint BlockStore, block/header/commit types": "real library code over simdb, fed by the driver",
+	"Tendermint consensus, mempool, p2p, handshake, evidence pool, RPC server": "stub: seeded block driver + TmStub (client.Client) following the pokt fork's call order",
+	"LevelDB":                   "stub: simdb",
+	"hosted chain HTTP endpoint": "stub: in-process RoundTripper",
+	"wall clock":                 "real outside synctest replicas; virtual inside (C12)",
+}
+
+var chainAssume = []string{
+	"typed views of raw KV dumps are decoded with the repository's own codec and key prefixes (trusted base)",
+	"the driver follows the pokt tendermint fork's call order (SaveBlock -> BeginBlock..Commit -> index); Tendermint itself is a stub",
+	"verdict-bearing configurations start in the current protocol era (all features active by height 4); legacy mainnet-height branches are not reached",
+	"sampling, not proof: seeded search over generated histories",
+}
+
+func chainProp(quick, thorough float64, rule string) PropSpec {
+	return PropSpec{Engine: "chainsim", Level: "exploration", QuickS: quick, ThoroughS: thorough, MinBudget: 250, Rule: rule, Assumptions: chainAssume, RealStub: chainRealStub}
+}
+
+func init() {
+	base := "one evaluation = one simulated chain history (40-140 generated steps: signed transactions with adversarial signature/fee/encoding treatments, blocks with time gaps, absent votes, double-sign evidence, mempool reordering, off-chain calls, restarts) on a swarm-drawn configuration; every ABCI phase boundary is dumped and judged on the diff; "
+	Props["C06"] = chainProp(45, 900, base+"distinct case = committed population shape; non-trivial = block executed with transient-store and commit-version checks")
+	Props["C11"] = chainProp(45, 900, base+"off-chain calls (queries at any height, CheckTx, app/simulate of every tx kind) are placed at every ABCI boundary; distinct case = (call kind/path, placement)")
+	Props["C14"] = chainProp(45, 900, base+"distinct case = (tx kind, signature treatment) of delivered unauthenticated transactions and (tx kind, outcome) of authenticated ones")
+	Props["C15"] = chainProp(45, 900, base+"fees drawn around the required fee and balances around the fee; distinct case = (tx kind, encoding, outcome)")
+	Props["C16"] = chainProp(45, 900, base+"resubmission of identical bytes and of re-encodings that the node's decoder maps to the same StdTx, in the same or later blocks; distinct case = (tx kind, encoding, outcome)")
+	Props["C17"] = chainProp(45, 900, base+"distinct case = committed population shape (nodes, apps, jailed, unstaking)")
+	Props["C18"] = chainProp(45, 900, base+"send amounts {1, balance-fee, balance, balance+1, random}, self-sends, fresh recipients; distinct case = (tx kind, encoding, outcome)")
+	Props["C19"] = chainProp(45, 900, base+"distinct case = committed population shape (nodes, apps, jailed, unstaking)")
+	Props["C20"] = chainProp(45, 900, base+"distinct case = committed population shape (nodes, apps, jailed, unstaking)")
+	Props["C21"] = chainProp(45, 900, base+"index entries are parsed from raw keys (0x23|power|^addr, 0x22|chain|addr, 0x41|time) and compared both ways with the records; distinct case = committed population shape")
+	Props["C22"] = chainProp(45, 900, base+"the driver applies every reported update cumulatively; distinct case = (updates in block, set size, eligible nodes)")
+	Props["C36"] = chainProp(45, 900, base+"parameter changes, upgrades and DAO transfers/burns by the owner and by other keys, amounts around the DAO balance; distinct case = (tx kind, encoding, outcome)")
+}
